@@ -667,7 +667,13 @@ Definition check_run (en : bool) (scripts : list script) (tr : list ev) : bool :
    moment) and waits for / holds / releases THAT object, whatever the channel refers to later on.
    [OOpen] is `channel.open()` — the connection is (re-)opened, by anybody, at any time: with [recreate]
    it binds a fresh lock object, without it the object made by `__init__` stays.  A caller whose
-   operation has ended (result or failure) may come again ([OAgain]: the retry after a re-open). *)
+   operation has ended (result or failure) may come again ([OAgain]: the retry after a re-open).
+   [OOpen] also stands for every other step of the connection's life that runs outside the callers' lock
+   sections — `Driver.commandeer()` (the connection takes over another connection's session, or is taken
+   over), `close()` —: [recreate] is generated from the WHOLE package (does anything but the channel's
+   `__init__` bind `channel_lock`), so with [recreate = false] such a step leaves the object alone as well.
+   (A step that unbinds the lock — `channel_lock = None` — is not a state of this model: it is [recreate =
+   true], outside the theorem's premise, and the harness' oracle judges it on the real code.) *)
 Inductive ost := OIdle | OWait (g : nat) | OHold (g : nat) | OEnded.
 Inductive oev := OArrive (c : nat) | OAcq (c : nat) | OIo (c : nat) | ORel (c : nat) | OAgain (c : nat) | OOpen.
 Record ocfg := mkO { o_cur : nat; o_sts : list ost }.
